@@ -12,6 +12,7 @@ Core Lean only.
 -/
 import Compio.Model.Common
 import Compio.Model.KeyLife
+import Compio.Gen.WithCancel
 
 namespace Compio.KeyLife.Script
 
@@ -291,10 +292,77 @@ def exec (sim : Sim) (w : List String) : Sim × String :=
   | ["end"] => line sim "ok"
   | _ => (sim, "bad-op")
 
+/-! ### runtime level: `compio_runtime::CancelToken` + `with_cancel` (lines `rt <drv> <cap>` / `tok <steps> <neighbour>`)
+
+The wrapped future runs its steps in order; every driver call the runtime makes on its behalf is an event of the LTS, and
+the token's two operations are the event lists of `Token.register` / `Token.cancel` (the ones the C05 token theorems are
+about). Rings are large here: no cancel overflows the submission queue, so the `posts` of the cancel events are empty. -/
+
+structure RtRun where
+  sim : Sim
+  tok : Token
+  outs : List String
+  slot : Nat
+
+/-- `CancelToken::cancel()` -/
+def rtFire (r : RtRun) : RtRun :=
+  let (t', es) := r.tok.cancel (fun _ => [])
+  { r with sim := evs r.sim es, tok := t' }
+
+/-- one receive step of the wrapped future: `Submit::poll` pushes, then registers the key with the token carried by the
+waker (`cx.get_cancel()`); `r`: the controller fires an unfired token while the op is in flight; `k`: an unfired token
+stays so and the 15 ms timeout drops the future (`Submit::drop` → `Proactor::cancel`); `d`: data is waiting -/
+def rtOp (r : RtRun) (kind : String) : RtRun :=
+  let slot := r.slot
+  let sim0 := if kind = "d" then setAvail r.sim slot 1 else r.sim
+  let id := sim0.st.ops.length
+  let (sim1, out) := exec sim0 ["push", "rd", toString slot]
+  if out.startsWith "ready" then { r with sim := sim1, outs := r.outs ++ ["ok:4"], slot := slot + 1 }
+  else
+    -- `WithCancel::poll` hands the token down through the waker (shape checked by the extractor, `Gen.WithCancel`), so
+    -- `Submit::poll` sees it and registers the key
+    let (tok1, es) := if Gen.withCancelAlwaysWrapsWaker then r.tok.register id [] else (r.tok, [])
+    let r1 : RtRun := { r with sim := evs sim1 es, tok := tok1, slot := slot + 1 }
+    let r2 := if kind = "r" ∧ !r.tok.fired then rtFire r1 else r1
+    if kind = "k" ∧ !r.tok.fired then
+      { r2 with sim := settle (ev r2.sim (.userCancel id [])), outs := r2.outs ++ ["t"] }
+    else
+      let sim3 := settle r2.sim
+      let res := match opOf sim3 id with
+        | some o =>
+          match o.result with
+          | some x => if x = ECANCELED then "c" else showRes x
+          | none => "hang"
+        | none => "?"
+      { r2 with sim := ev sim3 (.userPop id), outs := r2.outs ++ [res] }
+
+def rtStep (r : RtRun) (st : String) : RtRun :=
+  if st = "r" ∨ st = "k" ∨ st = "d" then rtOp r st
+  else if st = "F" ∨ st = "X" then rtFire r
+  else r
+
+def rtCase (sim : Sim) (steps : List String) (neighbour : Bool) : Sim × String :=
+  -- the neighbour's receive (op 0, own descriptor) is submitted first and registered with nothing
+  let sim := if neighbour then (exec sim ["push", "rd", "0"]).1 else sim
+  let r := steps.foldl rtStep ⟨sim, Token.new, [], 1⟩
+  let nres := if neighbour then
+      match opOf r.sim 0 with
+      | some o => if o.cancelled then "c" else "t"
+      | none => "?"
+    else "-"
+  -- its timeout drops it
+  let sim' := if neighbour then settle (ev r.sim (.userCancel 0 [])) else r.sim
+  (sim', (if sim'.dead then "reject" else ",".intercalate r.outs ++ " n:" ++ nres) ++ " | -")
+
 /-- driver step: `cfg <iour|poll> <cap>` starts a case -/
 def stepLine (sim : Sim) (ln : String) : Sim × String :=
   if ln.startsWith "#case" then (Sim.init .iour 1024, ln.trimAscii.toString) else
   match words ln with
+  | ["rt", d, cap] =>
+    match cap.toNat? with
+    | some cap => (Sim.init (if d = "poll" then Drv.poll else Drv.iour) cap, "ok | -")
+    | none => (sim, "bad-op")
+  | ["tok", steps, nb] => rtCase sim (steps.splitOn ",") (nb == "1")
   | ["cfg", d, cap] =>
     match cap.toNat? with
     | some cap =>
